@@ -373,6 +373,16 @@ func (x *Exec) havocAll(st State, site string) {
 		if name == "alloc" {
 			continue
 		}
+		if name == "G_calls_len" {
+			old := x.comp(st, name)
+			n := x.C.Fresh(name+"_hv", sort)
+			x.C.Assume(BoolLit(true), T(SBool, app(">=", n.S, old.S)))
+			st[name] = n
+			continue
+		}
+		if name == "G_held" {
+			continue
+		}
 		st[name] = x.C.Fresh(name+"_hv", sort)
 	}
 }
